@@ -42,12 +42,17 @@ pub struct SState {
     pub is_result: bool,
     /// type parameters of the impl that stand for the sink (`W: Write + Seek`): `Unit`, the device is implicit
     pub sink_tys: HashSet<String>,
+    /// (helper t6w4) the method uses the wall-clock parameter `now`
+    pub needs_now: bool,
 }
 
 /// Lean types of the external types that occur in the fields of a state structure.
 pub fn s_ty(tr: &Tr, name: &str, args: &[&Type]) -> Option<R<String>> {
     if tr.s.sink_tys.contains(name) {
         return Some(Ok("Unit".into()));
+    }
+    if let Some(r) = tr.c_ty(name) {
+        return Some(r);
     }
     match name {
         "GenericZipWriter" => Some(Ok("Rs.S.Inner".into())),
@@ -248,6 +253,10 @@ pub fn translate_sfn(reg: &Registry, failed: &HashSet<String>, all: &[&Item], na
         tr.mut_vars.insert(n);
     }
     tr.s_tail_block(&f.block)?;
+    if tr.s.needs_now {
+        params.insert(1, "(now : Gen.DateTime)".into());
+        super::t6w4::mark_now(name);
+    }
     let mut s = String::new();
     for a in &tr.aux {
         s += a;
@@ -446,6 +455,9 @@ impl<'a> Tr<'a> {
     }
 
     pub fn s_type_of(&self, e: &Expr) -> Option<String> {
+        if let Some(t) = self.c_type_of(e) {
+            return Some(t);
+        }
         match e {
             Expr::Path(_) => {
                 let v = path_ident(e)?;
@@ -591,6 +603,9 @@ impl<'a> Tr<'a> {
 
     /// Hook of `Tr::expr` in S mode: `Some(atom)` when the expression belongs to the S vocabulary.
     pub fn s_expr(&mut self, e: &Expr, exp: &Option<String>, _tail: bool) -> R<Option<String>> {
+        if let Some(v) = self.c_expr(e)? {
+            return Ok(Some(v));
+        }
         match e {
             Expr::Try(t) => Ok(Some(self.s_try(&t.expr, exp)?)),
             Expr::Call(c) => {
@@ -922,7 +937,13 @@ impl<'a> Tr<'a> {
             if r != "self" {
                 return Err("S-mode method on a local".into());
             }
-            self.emit(format!("let ({t1}, {t2}) ← Gen.{st}.{name} ext self{a}"));
+            let now = if super::t6w4::needs_now(&format!("{st}::{name}")) {
+                self.s.needs_now = true;
+                " now"
+            } else {
+                ""
+            };
+            self.emit(format!("let ({t1}, {t2}) ← Gen.{st}.{name} ext{now} self{a}"));
             self.emit(format!("self := {t2}"));
         } else {
             let place = chain.join(".");
@@ -944,6 +965,9 @@ impl<'a> Tr<'a> {
             Expr::Paren(p) => &*p.expr,
             other => other,
         };
+        if let Some(v) = self.c_try(inner)? {
+            return Ok(v);
+        }
         if let Expr::MethodCall(m) = inner {
             let name = m.method.to_string();
             // e.map_err(ZipError::from)?  ==  e?
